@@ -4,7 +4,7 @@
    dims to a StridePattern with all its error branches, canonicalize, streamer word semantics), tied to
    the code by the L1 correspondence of harness/props/c02.py (real dart-layout-resolution and
    convert-dart-to-snax-stream passes on generated ops). *)
-From Snax Require Import Base.Prelude Base.ListAux Model.C02Stream Proofs.C02StreamProofs.
+From Snax Require Import Base.Prelude Base.ListAux Model.C02Stream Proofs.C02StreamProofs Proofs.C02CanonProofs.
 
 (* 1. Layout resolution (repaired code: unit response minus zero response): whenever layout∘schedule is
       linear on the iteration box — any coefficients, any constant term (static offsets included) —
@@ -63,3 +63,24 @@ Theorem C02_noncontiguous_inner_refuted :
             byte_stream TCDM (pattern_words p [4]) <> byte_stream 8 (nest [(16, 2); (64, 4)]).
 Proof. eexists. split; [vm_compute; reflexivity|]. vm_compute. discriminate. Qed.
 Print Assumptions C02_noncontiguous_inner_refuted.
+
+(* 3. StridePattern.canonicalize (dropping bound-1 dims, merging nested dims, passing disabled 0-dims
+      through) keeps the word stream of every pattern with non-negative bounds ... *)
+Theorem C02_canonicalize_words :
+  forall p spats, Forall (fun b => 0 <= b) (sp_ub p) ->
+  pattern_words (sp_canonicalize p) spats = pattern_words p spats.
+Proof. exact canonicalize_words. Qed.
+Print Assumptions C02_canonicalize_words.
+
+(* ... so the pattern that reaches the streaming region when the accelerator does not customise it
+   (snax_alu, snax_phs) still streams exactly the scheduled elements' bytes. *)
+Theorem C02_final_pattern_bytes_eq :
+  forall elsize bcast spats dims p,
+  convert_okb elsize spats dims = true -> to_pattern bcast spats dims = Ok p ->
+  Forall (fun b => 0 <= b) (sp_ub p) ->
+  byte_stream TCDM (pattern_words (sp_canonicalize p) spats) = byte_stream elsize (nest dims).
+Proof.
+  intros elsize bcast spats dims p Hok Hp Hb. rewrite (canonicalize_words p spats Hb).
+  exact (pattern_bytes_eq elsize bcast spats dims p Hok Hp).
+Qed.
+Print Assumptions C02_final_pattern_bytes_eq.
